@@ -362,10 +362,13 @@ package implementation
 // ======================================================================================================================
 // Property C01, the token contract: the recorded total supply of a token moves exactly with what the contract mints into /
 // burns out of its own balance, and never exceeds the max supply.
-// A token is issued only with 0 < max <= the global cap, total <= max, and total == max when it is not mintable.
+// A token is issued only with 0 < max <= the global cap, total <= max, and total == max when it is not mintable. The cap keeps
+// every amount the token contract can emit (the issued supply, a mint) below 2^255: the verifier refuses a descendant send of
+// 256 bits, and a refused descendant leaves the call neither applied nor refunded at the head of the contract's inbox (C09).
 //@ func checkToken(param) -> (err)
 //@   requires param.TotalSupply != nil && param.MaxSupply != nil
 //@   requires[abi-uint256] val(param.TotalSupply) >= 0 && val(param.MaxSupply) >= 0
+//@   ensures[fits-the-verifier's-amount-bound] err == nil ==> val(param.MaxSupply) < pow2(255) && val(param.TotalSupply) < pow2(255)
 //@   ensures[supply-bounds] err == nil ==> 0 < val(param.MaxSupply) && val(param.MaxSupply) <= val(constants.TokenMaxSupplyBig) && val(param.TotalSupply) <= val(param.MaxSupply) && (!param.IsMintable ==> val(param.TotalSupply) == val(param.MaxSupply))
 //@   modifies nothing
 
